@@ -205,7 +205,7 @@ func (g *gen) expired() bool { return g.stop || time.Now().After(g.cfg.Deadline)
 func hashCase(c *Case) uint64 {
 	h := fnv.New64a()
 	h.Write([]byte(c.Reader))
-	fmt.Fprintf(h, "|%d|%s|", c.ZipFail, c.ZipMode)
+	fmt.Fprintf(h, "|%d|%d|%s|", c.ZipFail, c.ZipLen, c.ZipMode)
 	h.Write(c.Data)
 	return h.Sum64()
 }
@@ -723,7 +723,10 @@ func (g *gen) zipFamily(b base) {
 				if !g.mine() {
 					continue
 				}
-				g.run(&Case{Family: "zip-reader-fault", Base: ab.name, Reader: rd, ZipFail: int64(off), ZipMode: mode, Data: arch}, true)
+				g.run(&Case{Family: "zip-reader-fault", Base: ab.name, Reader: rd, ZipFail: int64(off), ZipLen: int64(1 + off%16), ZipMode: mode, Data: arch}, true)
+				if off%4 == 0 {
+					g.run(&Case{Family: "zip-reader-fault", Base: ab.name, Reader: rd, ZipFail: int64(off), ZipMode: mode, Data: arch}, true)
+				}
 			}
 		}
 	}
